@@ -7,9 +7,10 @@ const SCALARS: [&str; 10] = [
 ];
 
 fn value(rng: &mut Rng) -> String {
-    match rng.below(12) {
+    match rng.below(13) {
         0 => String::new(),
         // values are kept as they are: quotes, brackets and file suffixes are ordinary text
+        12 => rng.pick(&["does not build below C:\\", "\\", "a\\ b", "trailing backslash \\", "\\n"]).to_string(),
         10 => rng.pick(&["\"one is not available\"", "\"a\" \"b\"", "\"\"", "\"", "'x'", "(none)", "[a]", "\"x", "x\""]).to_string(),
         11 => rng.pick(&["foo-1.0.tgz", "yes.txz", "$NetBSD$", "IGNORE", "none", "NULL"]).to_string(),
         1 => "yes".into(),
@@ -69,7 +70,7 @@ fn record(rng: &mut Rng, name: &str, bad_dep: bool, bad_loc: bool, lines: &mut V
     }
     if rng.chance(1, 3) {
         let n = rng.range(0, 4);
-        body.push(format!("SCAN_DEPENDS={}", (0..n).map(|i| format!("/usr/pkgsrc/f{}.mk", i)).collect::<Vec<_>>().join(*rng.pick(&[" ", "\t ", "\u{a0}", "\u{2003}", "\u{b}"]))));
+        body.push(format!("SCAN_DEPENDS={}", (0..n).map(|i| format!("{}f{}.mk{}", rng.pick(&["/usr/pkgsrc/", "../../mk//", "../../lang/./", "./", "a//b///"]), i, rng.pick(&["", "", "/", "/."]))).collect::<Vec<_>>().join(*rng.pick(&[" ", "\t ", "\u{a0}", "\u{2003}", "\u{b}"]))));
     }
     if rng.chance(1, 3) {
         body.push(format!("MULTI_VERSION={}", rng.pick(&["", " PYTHON_VERSION_REQD=312 ", "A=1 B=2", "x", "A=1\u{a0}B=2", "A=1\u{85}B=2\u{2003}C=3"])));
@@ -232,7 +233,7 @@ fn gen_c20(tier: &str, rng: &mut Rng, emit: &mut dyn FnMut(Op)) {
         }
     }
     // directory trees
-    let names: [&[u8]; 18] = [b"foo-1.0", b"bar-2.0nb3", b"py312-baz-0.1", b"a-b-c-1", b"nodash", b"-", b"x-", b"-1",
+    let names: [&[u8]; 23] = [b"tzdata-current", b"wip-tool-HEAD", b"snapshot-nb", b"oddball-", b"foo-1.0 ", b"foo-1.0", b"bar-2.0nb3", b"py312-baz-0.1", b"a-b-c-1", b"nodash", b"-", b"x-", b"-1",
         b"caf\xc3\xa9-1.0", b"bad\xff-1", b"+COMMENT", b"foo-1.0nb1",
         // names a directory listing filter might single out: leading dot, blanks, '~', '#'
         b".hidden-tool-2.0nb1", b"..-1", b".x", b"...", b" lead-1.0", b"tmp~-1#"];
@@ -263,6 +264,7 @@ fn gen_c20(tier: &str, rng: &mut Rng, emit: &mut dyn FnMut(Op)) {
                         1 => a.extend(format!("\u{feff}{} of {}", f, String::from_utf8_lossy(name)).as_bytes()),
                         2 => a.extend(format!("  {} \r\n\n", f).as_bytes()),
                         3 => {}
+                        4 if *f == "+CONTENTS" => a.extend(b"@name other-9.9\n@cwd /usr/pkg\nbin/x\n"),
                         _ => a.extend(format!("{} of {}", f, String::from_utf8_lossy(name)).as_bytes()),
                     }
                 }
